@@ -241,6 +241,10 @@ pub fn run_pool(prop: &str, cfg: &Cfg, pc: &PoolCfg) -> PoolResult {
                                     None
                                 }
                             };
+                            if shared.abort.load(Ordering::SeqCst) {
+                                complete.store(false, Ordering::SeqCst);
+                                return;
+                            }
                             match culprit {
                                 Some((i, d, r)) => {
                                     let mut deaths = shared.deaths.lock().unwrap();
